@@ -259,7 +259,91 @@ def work_terms(item):
     return viol, counts, nontriv
 
 
+def full_only(code):
+    """characters the code defines only in unicode-full.yaml (the lazily loaded table)"""
+    tc = table_chars(code)
+    short_ = {c for fn, c in tc if fn == "unicode.yaml"}
+    return sorted(c for fn, c in tc if fn == "unicode-full.yaml" and len(c) == 1 and c not in short_)
+
+
+def walk_exprs(code, k=3, width=8):
+    """k expressions, each a row of `width` lazily-loaded characters of the code, spread over its table"""
+    fo = full_only(code)
+    out = []
+    for j in range(k):
+        pick = [fo[(j * 37 + i * (len(fo) // width)) % len(fo)] for i in range(width)]
+        parts = []
+        for c in pick:
+            parts += [terms.T("mi" if c.isalnum() else "mo", text=c), terms.mo("+")]
+        out.append(terms.row(*parts[:-1]))
+    return out
+
+
+def walks():
+    codes = CELL + TEXT
+    ws = [[a, b] for a in codes for b in codes if a != b] + [[a, b, a] for a in codes for b in codes if a != b]
+    ws += [codes[i:] + codes[:i] for i in range(len(codes))] + [list(reversed(codes[i:] + codes[:i])) for i in range(len(codes))]
+    return ws
+
+
+def work_walk(item):
+    """one session per walk: switch BrailleCode, braille expressions made of lazily-loaded characters, switch again ...
+    The output after every switch must be in the alphabet of the code selected *now*."""
+    ws = item[0]
+    mc = mcx.worker_mc()
+    setup = [["rules_dir", mcx.RULES], ["pref", "BrailleNavHighlight", "Off"]]
+    exprs = {code: walk_exprs(code) for code in CELL + TEXT}
+    # fresh-session outputs: an expression that is not clean there is family (A)'s business, not this family's
+    fresh_ops, fresh_ix = [], []
+    for code in CELL + TEXT:
+        for j, t in enumerate(exprs[code]):
+            fresh_ops.append([["pref", "Language", LANG[code]], ["pref", "BrailleCode", code], ["mathml", terms.doc(t)], ["braille", ""]])
+            fresh_ix.append((code, j))
+    _, fres = mc.run_cases(setup, fresh_ops, fresh=True)
+    clean = {}
+    for (code, j), r in zip(fresh_ix, fres):
+        ok = len(r) == 4 and is_ok(r[3])
+        if ok:
+            b = val(r[3])
+            d = terms.doc(exprs[code][j])
+            ok = not (bad_cells(b, False, code, "".join(vis.vis(exprs[code][j]))) if code in CELL else bad_text(b, d)) and b.strip()
+        clean[(code, j)] = val(r[3]) if ok else None
+    ops, meta = [], []
+    for w in ws:
+        o, m = [], []
+        for code in w:
+            o += [["pref", "Language", LANG[code]], ["pref", "BrailleCode", code]]
+            for j, t in enumerate(exprs[code]):
+                if clean[(code, j)] is not None:
+                    o += [["mathml", terms.doc(t)], ["braille", ""]]
+                    m.append((len(o) - 1, code, j))
+        ops.append(o)
+        meta.append(m)
+    _, res = mc.run_cases(setup, ops, fresh=True)
+    viol, counts, nontriv = [], {"evaluations": 0, "skipped_panics": 0, "rejected": 0, "braille_errors": 0}, []
+    for w, m, r in zip(ws, meta, res):
+        prev = None
+        for i, code, j in m:
+            counts["evaluations"] += 1
+            if i >= len(r) or not is_ok(r[i]):
+                counts["braille_errors"] += 1
+                continue
+            b = val(r[i])
+            nontriv.append(hash((code, "walk", b)))
+            t = exprs[code][j]
+            bad = bad_cells(b, False, code, "".join(vis.vis(t))) if code in CELL else bad_text(b, terms.doc(t))
+            came = [c for c in w[:w.index(code)]] if w.index(code) else []
+            replay = {"kind": "walk", "walk": w}
+            if bad:
+                viol.append((f"C07|{code}|{bad[0]}|after-code-switch", f"[walk {'>'.join(w)}] braille under {code} for {terms.doc(t)} is {b!r}: contains {bad[0]} {bad[1]}", replay))
+            elif not b.strip():
+                viol.append((f"C07|{code}|empty|after-code-switch", f"[walk {'>'.join(w)}] braille under {code} for {terms.doc(t)} is empty", replay))
+    return viol, counts, nontriv
+
+
 def _dispatch(job):
+    if job[0] == "W":
+        return work_walk(job[1:])
     return work_chars(job[1:]) if job[0] == "C" else work_terms(job[1:])
 
 
@@ -268,8 +352,10 @@ def confirm(replay, verbose=False):
     old = mcx._worker_mc
     mcx._worker_mc = mc
     try:
-        t = terms.parse_xml(replay["doc"]).kids[0]
-        if replay["kind"] == "char":
+        t = terms.parse_xml(replay["doc"]).kids[0] if "doc" in replay else None
+        if replay["kind"] == "walk":
+            v, _, _ = work_walk(([replay["walk"]],))
+        elif replay["kind"] == "char":
             v, _, _ = work_chars((replay["code"], [(replay["label"], t, replay["char"])]))
         else:
             for _, n in t.walk():
@@ -315,6 +401,10 @@ def main(tier):
         for style in STYLES if code in CELL else ["Off", "EndPoints"]:
             for i in range(0, len(corp), 150):
                 jobs.append(("T", code, style, corp[i:i + 150]))
+    ws = walks()
+    run.count("code_walks", len(ws))
+    for i in range(0, len(ws), 6):
+        jobs.append(("W", ws[i:i + 6]))
     outs = []
     for _ in range(2):
         mcx._worker_mc = mcx.Mc()
@@ -336,7 +426,9 @@ def main(tier):
         rule="(A) every key (every member of every range) of Braille/<code>/unicode.yaml and unicode-full.yaml in <mi>/<mo>/<mtext>/alone contexts and "
              "14 mathvariant values x 8 token classes, for Nemeth, UEB, CMU, Vietnam, LaTeX, ASCIIMath; (B) spine terms of G (quick: depth 1 + depth 2 over a "
              "12-construct core; thorough: depth 2) and the trigger terms with author ids on every element x 4 highlight styles x node id in "
-             "{'', unknown, root, each of the first 14 author ids}, then node-from-braille at 0 and 500 and the requests repeated. "
+             "{'', unknown, root, each of the first 14 author ids}, then node-from-braille at 0 and 500 and the requests repeated; "
+             "(C) code walks in ONE session: every ordered pair A>B, every A>B>A and 12 rotations through all six codes, three expressions of "
+             "lazily-loaded (unicode-full-only) characters brailled after every switch. "
              "distinct_nontrivial = distinct (code, style, braille string) results",
         assumptions=["characters the selected code defines no braille for are outside the guarantee and outside the alphabet",
                      "the statement names six codes; Swedish and ASCIIMath-fi are exercised by C15 only",
